@@ -13,6 +13,7 @@ EXPLANATION = ("C18: ring discipline of nni_lmq / nni_msgq (every cursor increme
                " Also: the allocation cursor is seeded only on first use or wrap, and resize walks the old ring with its allocation size and wraps surviving cursors with the new extent (R8).")
 EXPLANATION += " Round 3: lmq_mask is the storage's extent minus one wherever storage is installed (R9); drain loops end only when the count is zero (R10)."
 EXPLANATION += ' Round 5: a removal replaces the id table only once the map is empty, because the visit cursor is a table index (R14).'
+EXPLANATION += ' A send buffer that grows admits the senders blocked on it (R15).'
 
 RING = {"nni_lmq.lmq_msgs": ("nni_lmq.lmq_get", "nni_lmq.lmq_put", "nni_lmq.lmq_mask", "nni_lmq.lmq_len", "nni_lmq.lmq_cap"),
         "nni_msgq.mq_msgs": ("nni_msgq.mq_get", "nni_msgq.mq_put", "nni_msgq.mq_alloc", "nni_msgq.mq_len", "nni_msgq.mq_cap")}
@@ -706,6 +707,82 @@ def rule_r14(ctx):
                          "entries are skipped (docs: entries may be removed while iterating)" % (name, c.node["fn"], c.line))
 
 
+# ---------------------------------------------------------------------------
+# R15: a send buffer that grows admits the senders blocked on it
+
+def overflow_pairs(prog):
+    """{(queue field, wait-list field): parking function}: a send function that parks the caller's aio on a list of the
+    object after nni_lmq_put into a queue of the same object did not take the message"""
+    out = {}
+    for f in prog.functions:
+        if f.cfg_failed or "/sp/protocol/" not in "/" + f.file:
+            continue
+        puts = [c for c in f.calls("nni_lmq_put") if c.node["args"]]
+        if not puts or not list(f.calls("nni_aio_start")):
+            continue
+        for c in puts:
+            q = last_field(f.expand(c.node["args"][0]))
+            after = f.reach((c.b, c.i + 1))
+            for a in f.calls(("nni_aio_list_append", "nni_list_append")):
+                if (a.b, a.i) in after and a.node["args"]:
+                    w = last_field(f.expand(a.node["args"][0]))
+                    if q and w and q.split(".")[0] == w.split(".")[0]:
+                        out.setdefault((q, w), f)
+    return out
+
+
+def rule_r15(ctx):
+    r = ctx.rule("C18.R15", "T2", "a send buffer that grows admits the senders blocked on it: where a protocol parks senders on a wait list "
+                 "because nni_lmq_put found the buffer full, every function that resizes that buffer looks at the wait list "
+                 "(nni_list_first) before it releases the lock -- the send path puts a new message straight into a buffer with "
+                 "room, so with waiters left behind a message submitted later is delivered before them", floor=3)
+    prog = ctx.prog
+    pairs = overflow_pairs(prog)
+    if len(pairs) < 3:
+        raise AnalysisBroken("only %d (buffer, wait list) pairs found in the protocols" % len(pairs))
+    n = 0
+
+    def is_unlock(e):
+        return e is not None and any(m.get("k") == "call" and m.get("fn") == "nni_mtx_unlock" for m in walk(e))
+    for (q, w), parker in sorted(pairs.items()):
+        for f in prog.fns_in(parker.file):
+            if f.cfg_failed:
+                continue
+            for c in f.calls("nni_lmq_resize"):
+                if not c.node["args"] or last_field(f.expand(c.node["args"][0])) != q:
+                    continue
+                n += 1
+                serve = set()
+                for b in f.blocks.values():
+                    for i, e in enumerate(b.elems):
+                        for m in walk(f.expand(e)):
+                            if m.get("k") == "call" and m.get("fn") == "nni_list_first" and m.get("args") and \
+                                    last_field(f.expand(m["args"][0])) == w:
+                                serve.add((b.id, i))
+                    cnd = f.cond(b.id) if b.term else None
+                    if cnd is not None and any(m.get("k") == "call" and m.get("fn") == "nni_list_first" and m.get("args") and
+                                               last_field(f.expand(m["args"][0])) == w for m in walk(cnd)):
+                        serve.add((b.id, len(b.elems)))
+                # with the buffer (still) full there is nobody to admit: edges on which nni_lmq_full(Q) holds are not followed
+                full = {}
+                for bid, k, atom, val in G.edge_facts(f):
+                    if val and atom.get("k") == "call" and atom.get("fn") == "nni_lmq_full" and atom.get("args") and \
+                            last_field(f.expand(atom["args"][0])) == q:
+                        full[bid] = k
+                after = f.reach((c.b, c.i + 1), blocked=lambda b, i, e: (b, i) in serve,
+                                edge_ok=lambda b, k: not (b in full and full[b] == k))
+                leak = [(b, i) for (b, i) in after if (i < len(f.blocks[b].elems) and is_unlock(f.blocks[b].elems[i])) or (b, i) == (f.exit, 0)]
+                if leak:
+                    ctx.fail(r, f, "%s resized without admitting %s" % (q, w), c.line,
+                             "%s resizes %s (line %s) and releases the lock (line %s) without looking at %s, where %s parks "
+                             "senders that found the buffer full: they stay parked beside free room and the next send goes "
+                             "into the buffer ahead of them" % (f.name, q, c.line, f.line_of(*leak[0]), w, parker.name))
+                else:
+                    r.ob(f, "%s line %s: waiters on %s admitted before the lock is released" % (q, c.line, w))
+    if n < 3:
+        raise AnalysisBroken("only %d resizes of buffers with a wait list found" % n)
+
+
 def run(ctx):
     ctx.guard(rule_r1)
     ctx.guard(rule_r2)
@@ -718,6 +795,7 @@ def run(ctx):
     ctx.guard(rule_r11)
     ctx.guard(rule_r12)
     ctx.guard(rule_r14)
+    ctx.guard(rule_r15)
     from . import c08
     ctx.guard(c08.rule_r6)        # the pair sockets' receive buffer stays first-in first-out
     for rr in ctx.rules:
